@@ -260,7 +260,7 @@ fn parse_op(s: &str) -> Option<Op> {
     }
 }
 
-/// page size ∈ {4,8,16,32,64} KiB, 16 ≤ cache ≤ 60000, 1 ≤ pool ≤ 16, 2 ≤ min keys ≤ 8, 1 ≤ siblings ≤ 4
+/// page size ∈ {4,8,16,32,64} KiB, 16 ≤ cache ≤ 60000, 1 ≤ pool ≤ 16, 3 ≤ min keys ≤ 8 (`Btree::new` asserts ≥ 3), 1 ≤ siblings ≤ 4
 fn parse_cfg(ps: &str, cache: &str, pool: &str, mk: &str, sib: &str) -> Option<Cfg> {
     let c = Cfg {
         page_size: canon_usize(ps, 65536)?,
@@ -269,7 +269,7 @@ fn parse_cfg(ps: &str, cache: &str, pool: &str, mk: &str, sib: &str) -> Option<C
         min_keys: canon_usize(mk, 8)?,
         siblings: canon_usize(sib, 4)?,
     };
-    if !page_size_ok(c.page_size) || c.cache < 16 || c.pool == 0 || c.min_keys < 2 || c.siblings == 0 {
+    if !page_size_ok(c.page_size) || c.cache < 16 || c.pool == 0 || c.min_keys < 3 || c.siblings == 0 {
         return None;
     }
     Some(c)
@@ -693,9 +693,13 @@ fn run_in(dir: &std::path::Path, head: &Head, ops: &[Op]) -> String {
     drop(db);
     let mut line = format!("{} | {}", outs.join(" "), fin);
     if !diag.is_empty() {
+        // messages of errors outside the expected classes first, then a few of the routine ones
+        let (mut odd, mut routine): (Vec<String>, Vec<String>) = diag.into_iter().partition(|m| err_class(m) == "other");
+        odd.truncate(8);
+        routine.truncate(4);
+        odd.extend(routine);
         line.push_str(" ## ");
-        diag.truncate(12);
-        line.push_str(&diag.join(" // "));
+        line.push_str(&odd.join(" // "));
     }
     line
 }
@@ -726,6 +730,8 @@ struct TInfo {
 
 struct SInfo {
     name: String,
+    /// committed keys per table when the session began (what its snapshot sees)
+    seen: Vec<Vec<i64>>,
     ins: Vec<(usize, i64)>, // (table index, key) inserted, pending
     del: Vec<(usize, i64)>, // deleted, pending
 }
@@ -739,6 +745,8 @@ struct Gen<'a> {
     next_key: i64,
     next_tab: usize,
     rb_delete: bool,
+    /// rows of 600 bytes and more (overflow chains from ~1 KiB per 4 KiB page): region `bigrows`, see cfg/C09.py
+    big: bool,
     tags: Vec<String>,
     // for the non-triviality rule
     seg_alloc: bool,
@@ -757,7 +765,7 @@ fn gen_cfg(rng: &mut Rng) -> String {
         rng.pick(&PAGE_SIZES),
         rng.pick(&CACHES),
         rng.range(1, 4),
-        rng.range(2, 5),
+        rng.range(3, 5),
         rng.range(1, 3)
     )
 }
@@ -776,7 +784,11 @@ impl<'a> Gen<'a> {
         self.next_key
     }
     fn text(&mut self) -> String {
-        match self.rng.below(10) {
+        let hi = if self.big { 10 } else { 6 };
+        if self.big {
+            self.tag("bigrows");
+        }
+        match self.rng.below(hi) {
             0..=4 => format!("'{}'", self.rng.pick(&["a", "abc", "row", "xyzzy", "q"])),
             5 => "null".into(),
             6 => {
@@ -792,8 +804,9 @@ impl<'a> Gen<'a> {
                 format!("^{}{}", self.rng.pick(&["abc", "wxyz"]), self.rng.range(3000, 5000))
             }
             _ => {
-                self.tag("text_70KiB");
-                format!("^abcdefghij{}", self.rng.range(6600, 7200))
+                // a row image must fit into one 40 KB block of the write-ahead log: larger rows are refused with an I/O error
+                self.tag("text_20-36KiB");
+                format!("^abcdefghij{}", self.rng.range(2000, 3600))
             }
         }
     }
@@ -912,7 +925,12 @@ impl<'a> Gen<'a> {
         let mut cands: Vec<String> = Vec::new();
         for ti in &uniq {
             let name = self.tables[*ti].name.clone();
-            if let Some(k) = self.tables[*ti].keys.first().copied() {
+            // a duplicate of a key that is committed now and, for a session, was already committed when it began
+            let k = self.tables[*ti].keys.iter().copied().find(|k| match who {
+                Some(si) => self.open[si].seen.get(*ti).map(|v| v.contains(k)).unwrap_or(false),
+                None => true,
+            });
+            if let Some(k) = k {
                 if !self.locked(*ti, k) {
                     cands.push(format!("ins {} {} 1 'dup'", name, k));
                 }
@@ -952,7 +970,8 @@ impl<'a> Gen<'a> {
         }
         let name = format!("s{}", i);
         self.push(format!("{} begin", name));
-        self.open.push(SInfo { name, ins: vec![], del: vec![] });
+        let seen = self.tables.iter().map(|t| t.keys.clone()).collect();
+        self.open.push(SInfo { name, seen, ins: vec![], del: vec![] });
         self.seg_alloc = true;
         self.tag("session");
         if self.open.len() >= 2 {
@@ -1166,7 +1185,7 @@ impl<'a> Gen<'a> {
     }
 }
 
-fn gen_history(rng: &mut Rng, fam: Fam, n_reopen: usize, seg_len: usize) -> Case {
+fn gen_history(rng: &mut Rng, fam: Fam, big: bool, n_reopen: usize, seg_len: usize) -> Case {
     let head = gen_cfg(rng);
     let mut g = Gen {
         rng,
@@ -1177,6 +1196,7 @@ fn gen_history(rng: &mut Rng, fam: Fam, n_reopen: usize, seg_len: usize) -> Case
         next_key: 0,
         next_tab: 0,
         rb_delete: false,
+        big,
         tags: vec![],
         seg_alloc: false,
         seg_rollback: false,
@@ -1201,6 +1221,14 @@ fn gen_history(rng: &mut Rng, fam: Fam, n_reopen: usize, seg_len: usize) -> Case
     tags.push(format!("create_cache{}", hw[1]));
     if g.nt {
         tags.push("nt".into());
+    }
+    if tags.iter().any(|t| t == "bigrows") {
+        tags.push("kf:bigrows".into());
+    }
+    // small pages, high minimum key count (= small inline limit, so catalog rows spill early) and pages freed by DROP TABLE:
+    // the conditions under which the B+tree's aliased overflow chains have been seen to bite the catalog (cfg/C09.py)
+    if hw[0] == "4096" && hw[3] != "3" && tags.iter().any(|t| t == "drop_table") && !tags.iter().any(|t| t.starts_with("kf:")) {
+        tags.push("kf:overflow_alias".into());
     }
     if !tags.iter().any(|t| t.starts_with("kf:")) {
         tags.push("clean".into());
@@ -1261,10 +1289,12 @@ impl Engine for ReopenEngine {
         let quick = tier == Tier::Quick;
         let mut out = Vec::new();
         for i in 0..(if quick { 150 } else { 1500 }) {
+            // 10 % rolled-back UPDATEs (finding of C03/C04), 15 % big rows (B+tree finding of C10/C12), ~5 % catalog overflow risk, 70 % clean
             let fam = if i % 10 == 9 { Fam::RollbackUpdate } else { Fam::Clean };
+            let big = i % 10 == 3 || i % 20 == 7;
             let n_reopen = rng.range(1, 4) as usize;
             let seg = if rng.chance(1, 5) { 16 } else { 8 };
-            out.push(gen_history(rng, fam, n_reopen, seg));
+            out.push(gen_history(rng, fam, big, n_reopen, seg));
         }
         for _ in 0..(if quick { 2 } else { 10 }) {
             out.push(gen_many_inserts(rng));
